@@ -15,6 +15,8 @@ From Sccache Require Import Proofs.Startup.
 From Sccache Require Import Proofs.ServerLife.
 From Sccache Require Import Model.ServerExit.
 From Sccache Require Import Proofs.ServerExit.
+From Sccache Require Import Model.MultiAddr.
+From Sccache Require Import Proofs.MultiAddr.
 Import ListNotations.
 Local Open Scope N_scope.
 
@@ -209,6 +211,66 @@ Theorem C20_cut_connection_falls_back :
   /\ exit_code (cut_client opq ignore_io f k) local = local.
 Proof. exact cut_connection_falls_back. Qed.
 Print Assumptions C20_cut_connection_falls_back.
+
+(* ---------- several addresses at once (Model/MultiAddr.v) ---------- *)
+
+(* One server per ADDRESS, and addresses do not interfere: any set `l` of Unix-socket addresses in use at the same
+   time, one start-up race per address, ONE lock table keyed by the lock-file name `lock_name p = p ++ ".lock"`.
+   Whatever the common schedule, each address goes through exactly its own schedule run alone — so
+   C20_uds_singleton (at most one server, nobody left behind, convergence) holds for every address separately. *)
+Theorem C20_addresses_do_not_interfere :
+  forall (r : nat) (n : N) (l : list path) (sched : list (path * ev)) (a : path),
+  sts (mexec lock_name (winit (UdsPath true) r n l) sched) a = exec (init (UdsPath true) r n false) (proj a sched).
+Proof. intros. apply independent_init. apply lock_name_injective_on. Qed.
+Print Assumptions C20_addresses_do_not_interfere.
+
+(* ... for ANY way of naming the lock file that gives different paths different files, and ".lock" appended does. *)
+Theorem C20_lock_name_injective :
+  (forall p q : path, lock_name p = lock_name q -> p = q)
+  /\ (forall (ln : path -> path) (k : akind) (r : nat) (n : N) (l : list path) (sched : list (path * ev)) (a : path),
+       (forall a b, In b l -> ln b = ln a -> b = a) ->
+       sts (mexec ln (winit k r n l) sched) a = exec (init k r n false) (proj a sched)).
+Proof. split; [exact lock_name_injective | intros; now apply independent_init]. Qed.
+Print Assumptions C20_lock_name_injective.
+
+(* A lock-file name that REPLACES the extension instead of appending gives /t/b.d and /t/b.r one lock file: while a
+   server for the first is alive, the server cold-started for the second finds the lock taken, reports AddrInUse and
+   exits, and its client burns its 11 connect attempts on a path nobody binds — with the appended name the same
+   schedule lets the second address proceed. *)
+Theorem C20_shared_lock_name_refuted :
+  with_extension_lock addr_debug = with_extension_lock addr_release /\
+  lock_name addr_debug <> lock_name addr_release /\
+  let sched := [(addr_debug, EC 0); (addr_debug, EC 0); (addr_debug, ES 0); (addr_debug, ES 0); (addr_debug, ES 0);
+                (addr_debug, ES 0); (addr_debug, EC 0); (addr_debug, EC 0);
+                (addr_release, EC 0); (addr_release, EC 0); (addr_release, ES 0); (addr_release, ES 0);
+                (addr_release, EC 0)] ++ repeat (addr_release, EC 0) 11 in
+  let bad := mexec with_extension_lock (winit (UdsPath true) 10 1 [addr_debug; addr_release]) sched in
+  let good := mexec lock_name (winit (UdsPath true) 10 1 [addr_debug; addr_release]) sched in
+  cl (sts bad addr_debug) 0 = CDone 0 /\ cl (sts bad addr_release) 0 = CFail FRetry
+  /\ sv (sts bad addr_release) 0 = SExited false
+  /\ cl (sts good addr_debug) 0 = CDone 0 /\ sv (sts good addr_release) 0 = SUnlinked.
+Proof. exact shared_lock_name_starves. Qed.
+Print Assumptions C20_shared_lock_name_refuted.
+
+(* How a cut connection ENDS decides the in-flight clause.  The server hands accepted sockets on untouched, so its
+   exit releases them in an orderly way (end-of-file at the client): local fallback, for every cut point.  Had the
+   socket been set to abort on close (zero linger), the same exit would reset the connection and the same client
+   would fail with the sccache error (exit 2) unless SCCACHE_IGNORE_SERVER_IO_ERROR=1. *)
+Theorem C20_exit_ends_connections_orderly :
+  forall (opq : N -> list N -> bool) (ignore_io : bool) (f : finished) (k : nat) (local : N),
+  blen (encode_finished f) < 4294967296 ->
+  (k < length (frame (encode_finished f)))%nat ->
+  close_ending accepted_abort_on_close = Eof
+  /\ cut_client_ending opq ignore_io f k (close_ending accepted_abort_on_close) = RunLocally LEofAfterAck
+  /\ exit_code (cut_client_ending opq ignore_io f k (close_ending accepted_abort_on_close)) local = local
+  /\ cut_client_ending opq ignore_io f k (close_ending true)
+     = (if ignore_io then RunLocally LIgnoredError else SccacheError EAfterAck).
+Proof.
+  intros opq ig f k local H1 H2. split; [reflexivity|].
+  destruct (orderly_close_falls_back opq ig f k local H1 H2) as [A B].
+  split; [exact A|]. split; [exact B|]. now apply reset_is_fatal.
+Qed.
+Print Assumptions C20_exit_ends_connections_orderly.
 
 (* ---------- non-vacuity ---------- *)
 
